@@ -42,6 +42,26 @@ pub fn enumerate(tier: Tier) -> Vec<RTy> {
     // identifies a type by its last path segment)
     all.extend(gen::enumerate_spines(&[RTy::named("models::Item"), RTy::named("crate::dto::Kind")], &[leaf("i32")], 2));
     all.extend(gen::enumerate_spines(&[RTy::named("models::Item")], &[leaf("i32")], 3));
+    // several path-qualified names in ONE expression (the qualifier stripper works on the text)
+    {
+        let a = RTy::named("models::Item");
+        let b = RTy::named("crate::dto::Kind");
+        let c = RTy::named("self::models::Item");
+        let bx = |t: &RTy| Box::new(t.clone());
+        let pairs = vec![
+            RTy::Tuple(vec![a.clone(), b.clone()]),
+            RTy::Tuple(vec![b.clone(), a.clone(), c.clone()]),
+            RTy::HashMap(bx(&b), bx(&a)),
+            RTy::BTreeMap(bx(&leaf("String")), bx(&RTy::Tuple(vec![a.clone(), b.clone()]))),
+            RTy::Result2(bx(&RTy::Tuple(vec![a.clone(), b.clone()])), bx(&leaf("String"))),
+            RTy::Option(bx(&RTy::Tuple(vec![leaf("i32"), a.clone(), b.clone()]))),
+            RTy::Tuple(vec![RTy::Vec(bx(&a)), RTy::Option(bx(&b))]),
+        ];
+        for p in pairs {
+            all.push(RTy::Vec(bx(&p)));
+            all.push(p);
+        }
+    }
     // a parameter or field of reference type other than &str is not in the documented set at
     // top level for owned sites, but is harmless to the translator: keep everything.
     let mut seen = HashSet::new();
